@@ -110,6 +110,15 @@ pub fn run(_args: &[String]) -> i32 {
             ("parts/part3.ledger".into(), e[3].clone()),
             ("parts/partx.ledger".into(), "2024/02/04 not matched by the class\n    A    666 JPY\n    B\n\n".into()),
         ]),
+        // sorted PATH order compares component by component: `bank` sorts before `bank-old` and `bank.savings`, although
+        // `-` and `.` sort below `/` in the raw strings (seed C11-j)
+        ("wildcard in a directory component, sibling directories whose names are prefixes of one another", vec![
+            ("main.ledger".into(), format!("{}include accts/*/tx.ledger\n\n{}{}{}", e[0], e[4], e[5], e[6])),
+            ("accts/bank/tx.ledger".into(), e[1].clone()),
+            ("accts/bank-old/tx.ledger".into(), e[2].clone()),
+            ("accts/bank.savings/tx.ledger".into(), e[3].clone()),
+            ("accts/bank/other.ledger".into(), "2024/02/05 not matched: another file name\n    A    555 JPY\n    B\n\n".into()),
+        ]),
         ("question-mark glob and a file included from two places in a row", vec![
             ("main.ledger".into(), format!("{}include p?.ledger\n\n{}{}{}{}", e[0], e[3], e[4], e[5], e[6])),
             ("p1.ledger".into(), e[1].clone()),
